@@ -636,6 +636,9 @@ class Interp:
             k, m = self.repo.find_method(v[1].cls, "__enter__")
             if m is not None:
                 bound = self.call_function(m, k, v, [], {}, depth=depth + 1)
+        h = self.hooks.get("with:enter")
+        if h is not None:
+            h(self, v)          # a rule observes (or interrupts) the acquisition of a library context manager (a lock)
         self.emit("ENTER", v)
         if item.optional_vars is not None:
             self.assign(item.optional_vars, bound, env, depth)
